@@ -131,22 +131,28 @@ func extractPatterns(repo string) ([]srcPattern, error) {
 
 // which correspondence operation exercises a pattern directly (the witness string is the operation's subject)
 var patternOps = map[string]func(s string) []Op{
-	"regex.IncludeRegex":             func(s string) []Op { return []Op{{"pat.include", [][]byte{[]byte(s)}}} },
-	"regex.IncludeExceptRegex":       func(s string) []Op { return []Op{{"pat.includeExcept", [][]byte{[]byte(s)}}} },
-	"regex.DefinitionRegex":          func(s string) []Op { return []Op{{"pat.definition", [][]byte{[]byte(s)}}} },
-	"regex.CommentRegex":             func(s string) []Op { return []Op{{"pat.comment", [][]byte{[]byte(s)}}} },
-	"regex.FlagsRegex":               func(s string) []Op { return []Op{{"pat.flags", [][]byte{[]byte(s)}}} },
-	"regex.PrefixRegex":              func(s string) []Op { return []Op{{"pat.prefix", [][]byte{[]byte(s)}}} },
-	"regex.SuffixRegex":              func(s string) []Op { return []Op{{"pat.suffix", [][]byte{[]byte(s)}}} },
-	"regex.ProcessorStartRegex":      func(s string) []Op { return []Op{{"pat.processorStart", [][]byte{[]byte(s)}}} },
-	"regex.ProcessorBlockStartRegex": func(s string) []Op { return []Op{{"pat.blockStart", [][]byte{[]byte(s)}}, {"format.processLine", [][]byte{[]byte(s), []byte("x")}}} },
-	"regex.ProcessorEndRegex":        func(s string) []Op { return []Op{{"pat.blockEnd", [][]byte{[]byte(s)}}} },
-	"regex.AssembleInputRegex":       func(s string) []Op { return []Op{{"pat.assembleInput", [][]byte{[]byte(s)}}} },
-	"regex.AssembleOutputRegex":      func(s string) []Op { return []Op{{"pat.assembleOutput", [][]byte{[]byte(s)}}} },
-	"regex.RuleIdFileNameRegex":      func(s string) []Op { return []Op{{"ruleid.parse", [][]byte{[]byte(s)}}} },
-	"regex.TestIdRegex":              func(s string) []Op { return []Op{{"renumber.processYaml", [][]byte{[]byte("920100"), []byte(s + "\n")}}} },
-	"regex.TestTitleRegex":           func(s string) []Op { return []Op{{"renumber.processYaml", [][]byte{[]byte("920100"), []byte(s + "\n")}}} },
-	"regex.CRSVersionRegex":          copyrightOp, "regex.ShortCRSVersionRegex": copyrightOp, "regex.CRSCopyrightYearRegex": copyrightOp,
+	"regex.IncludeRegex":        func(s string) []Op { return []Op{{"pat.include", [][]byte{[]byte(s)}}} },
+	"regex.IncludeExceptRegex":  func(s string) []Op { return []Op{{"pat.includeExcept", [][]byte{[]byte(s)}}} },
+	"regex.DefinitionRegex":     func(s string) []Op { return []Op{{"pat.definition", [][]byte{[]byte(s)}}} },
+	"regex.CommentRegex":        func(s string) []Op { return []Op{{"pat.comment", [][]byte{[]byte(s)}}} },
+	"regex.FlagsRegex":          func(s string) []Op { return []Op{{"pat.flags", [][]byte{[]byte(s)}}} },
+	"regex.PrefixRegex":         func(s string) []Op { return []Op{{"pat.prefix", [][]byte{[]byte(s)}}} },
+	"regex.SuffixRegex":         func(s string) []Op { return []Op{{"pat.suffix", [][]byte{[]byte(s)}}} },
+	"regex.ProcessorStartRegex": func(s string) []Op { return []Op{{"pat.processorStart", [][]byte{[]byte(s)}}} },
+	"regex.ProcessorBlockStartRegex": func(s string) []Op {
+		return []Op{{"pat.blockStart", [][]byte{[]byte(s)}}, {"format.processLine", [][]byte{[]byte(s), []byte("x")}}}
+	},
+	"regex.ProcessorEndRegex":   func(s string) []Op { return []Op{{"pat.blockEnd", [][]byte{[]byte(s)}}} },
+	"regex.AssembleInputRegex":  func(s string) []Op { return []Op{{"pat.assembleInput", [][]byte{[]byte(s)}}} },
+	"regex.AssembleOutputRegex": func(s string) []Op { return []Op{{"pat.assembleOutput", [][]byte{[]byte(s)}}} },
+	"regex.RuleIdFileNameRegex": func(s string) []Op { return []Op{{"ruleid.parse", [][]byte{[]byte(s)}}} },
+	"regex.TestIdRegex": func(s string) []Op {
+		return []Op{{"renumber.processYaml", [][]byte{[]byte("920100"), []byte(s + "\n")}}}
+	},
+	"regex.TestTitleRegex": func(s string) []Op {
+		return []Op{{"renumber.processYaml", [][]byte{[]byte("920100"), []byte(s + "\n")}}}
+	},
+	"regex.CRSVersionRegex": copyrightOp, "regex.ShortCRSVersionRegex": copyrightOp, "regex.CRSCopyrightYearRegex": copyrightOp,
 	"regex.CRSYearSecRuleVerRegex": copyrightOp, "regex.CRSVersionComponentSignatureRegex": copyrightOp,
 	"regex.RuleRxRegex": func(s string) []Op {
 		file := []byte(s + "\n    \"id:942100,\\\n    phase:2\"\n")
@@ -159,7 +165,7 @@ var patternOps = map[string]func(s string) []Op{
 	"regex/parser/include_except_builder.go:replaceSuffixes#1": func(s string) []Op {
 		return []Op{{"parse.replaceSuffixes", [][]byte{[]byte(s + "\nfoo@\n"), []byte("@ ~")}}}
 	},
-	"regex/parser.spaceRegex":                                         func(s string) []Op { return []Op{{"pat.splitArgs", [][]byte{[]byte(s)}}} },
+	"regex/parser.spaceRegex":                                      func(s string) []Op { return []Op{{"pat.splitArgs", [][]byte{[]byte(s)}}} },
 	"regex/operators/assembler.go:dontUseFlagsForMetaCharacters#1": passOp, "regex/operators/assembler.go:dontUseFlagsForMetaCharacters#2": passOp,
 	"regex/operators/assembler.go:removeOutermostNonCapturingGroup#1": passOp,
 }
